@@ -1056,7 +1056,7 @@ def show(st):
 
 def run_transition(cfg, history, ev):
     """Rebuild the state, execute one event, compare with the model.
-    Returns (problems, successor canon or None)."""
+    Returns (problems, successor canon or None, outcome label)."""
     probs = []
     env = build(cfg, history)
     names = [k for k in env if k != "L"]
@@ -1069,7 +1069,6 @@ def run_transition(cfg, history, ev):
     op = opname(ev)
     tag = cfg.tag()
     post = {k: snap(cfg, held[k], probs) for k in names}
-    ok = True
 
     def bad(failure, text):
         probs.append(("sets/%s/%s/%s" % (tag, failure, op),
@@ -1081,22 +1080,18 @@ def run_transition(cfg, history, ev):
     if out.raises is None:
         if exc is not None:
             bad("unexpected-" + crash_sig(exc), "raised %s: %s" % (type(exc).__name__, exc))
-            ok = False
     elif out.raises == sm.MAYRAISE:
         pass
     else:
         if exc is None:
             bad("accepted-" + out.raises, "did not raise (%s expected)" % out.raises)
-            ok = False
         elif not exc_ok(out.raises, exc):
             bad("wrong-exception-" + out.raises, "raised %s instead" % type(exc).__name__)
-            ok = False
     expected = out
     if out.ret_any_of is not None and exc is None:
         rec = {id(o): r for o, r in universe(cfg.profile).values()}.get(id(ret))
         if rec is None or rec.key not in sm.keys(out.ret_any_of):
             bad("pop-returned-non-member", "pop returned %r" % (ret,))
-            ok = False
         else:
             expected = sm.after_pop(pre[X], rec)
     # receiver
@@ -1114,46 +1109,37 @@ def run_transition(cfg, history, ev):
         else:
             bad("-".join(diff) + "-wrong", "now %s, model: [%s] ttl in %s covers=%s" % (
                 show(post[X]), ",".join(r.label for r in expected.items), sorted(expected.ttls), expected.covers))
-        ok = False
     # every other set is untouched
     for k in names:
         if k != X and (canon_of(cfg, post[k]) != canon_of(cfg, pre[k])):
             bad("operand-changed", "%s changed from %s to %s" % (k, show(pre[k]), show(post[k])))
-            ok = False
     # in-place operators return the receiver
     if ev[0] == "iop" and exc is None and ret is not x_obj:
         bad("inplace-returned-other-object", "the in-place form returned a different object")
-        ok = False
     # results of copying forms
     if out.res is not None and exc is None and out.raises is None:
         rkind, ritems, rttls, rcovers = out.res
         if type(ret) is not KIND_CLASS[rkind]:
             bad("result-type", "returned a %s, expected %s" % (type(ret).__name__, KIND_CLASS[rkind].__name__))
-            ok = False
         else:
             if any(ret is held[k] for k in names) or any(getattr(ret, "items", None) is held[k].items for k in names):
                 bad("result-aliases-operand", "the result shares identity/storage with an operand")
-                ok = False
             rs = snap(cfg, ret, probs)
             d2 = same_value(rs, ritems, rttls, rcovers)
             if d2:
                 bad("result-" + "-".join(d2) + "-wrong", "result %s, model: [%s] ttl in %s covers=%s" % (
                     show(rs), ",".join(r.label for r in ritems), sorted(rttls), rcovers))
-                ok = False
             if rkind == "rrset" and (ret.name != x_obj.name or ret.deleting != x_obj.deleting):
                 bad("result-name", "the result lost the owner name / deleting of the receiver")
-                ok = False
             if isinstance(ret, dns.rdataset.Rdataset) and (ret.rdclass != IN or ret.rdtype != cfg.t):
                 bad("result-class-type", "the result has class/type %s/%s" % (ret.rdclass, ret.rdtype))
-                ok = False
-    if probs and not ok:
-        return probs, None
+    label = "ok" if exc is None else "ok-refused:%s" % (out.raises or "?")
     if probs:
-        return probs, None
+        return probs, None, label
     if exc is None and rebinds(ev):
         env[X] = ret
     succ = (cfg.tup(), canon_of(cfg, snap(cfg, env["S"])), canon_of(cfg, snap(cfg, env["T"])))
-    return probs, succ
+    return probs, succ, label
 
 
 def fresh_like(cfg, which, st, order=None, ttl=None):
@@ -1344,9 +1330,9 @@ def expand(state, col):
         col.violation("C07/" + s, w, case)
     for ev in events_for(cfg, env):
         case = {"part": "sets", "cfg": list(ctup), "history": [list(e) for e in history], "event": ev}
-        probs, succ = run_transition(cfg, history, ev)
+        probs, succ, label = run_transition(cfg, history, ev)
         col.count("evaluations")
-        col.outcome("%s:%s" % (ev[0], "ok" if not probs else "/".join(probs[0][0].split("/")[1:3])))
+        col.outcome("%s:%s" % (ev[0], label if not probs else "/".join(probs[0][0].split("/")[1:3])))
         for s, w in probs:
             col.violation("C07/" + s, w, case)
         if succ is not None:
